@@ -95,6 +95,31 @@ CLAIMED = {
             "sequence vs extracted model, partition/prototype/tree/SciPy linkage checked on the implementation",
             "partial: partition and tree shape are checked on the implementation, SciPy trusted",
             "Coq proof (abstract policy) + correspondence + postcondition checker"),
+    "C13": ("Coq theorems: with free start/end psi the last-row value at end e is a lower bound of the penalised DTW cost "
+            "of the query against series[b..e] for every start b (shift lemma) and is attained by a path starting at the "
+            "top border (cell-wise optimality); the implementation's matching function is compared with the exhaustive "
+            "minimum over start points computed by the extracted DTW model; best match / k-best iterator invariants and "
+            "interleaved iteration checked on both engines",
+            "partial: the k-best iterator is checked on the implementation only",
+            "Coq proof (shift lemma + path optimality) + exhaustive correspondence"),
+    "C16": ("Coq theorems about the final assignment step for ANY means (so for any random choices): nearest mean (first "
+            "minimum), clusters partition the assigned indices with keys < k, unassigned only if all distances "
+            "infinite, iteration counter <= max_it + 1; postconditions checked on fit() over seeds x init modes x "
+            "drop_stddev x engines x serial/parallel",
+            "partial: reachability of the final step is correspondence only (F34, F35 recorded)",
+            "Coq proof (assignment step) + postcondition checker"),
+    "C18": ("Coq theorems about the match trace: cells after the start are positive, path contiguous/monotone, no cell of "
+            "an earlier (negated) match is reused; the affinity recurrence (exp, floats) is compared cell by cell with a "
+            "reference implementation, C engines with Python, match iterator histories with the proved properties",
+            "partial: the recurrence itself is float code tied by correspondence; C-engine differences recorded (F15, F21)",
+            "Coq proof (trace model) + reference-implementation correspondence"),
+    "C20": ("Coq theorems: a view that went through verify_np_array is read by C as its logical content (any strides), "
+            "unguarded strided reads refuted; the table of ALL call sites into pointer-taking compiled routines is "
+            "regenerated from the sources and every site is proved guarded (by computation); purity, container and "
+            "history independence checked on the implementation with bitwise snapshots over all container forms, "
+            "NumPy importable or not",
+            "partial: aliasing/mutation in pure Python is established by correspondence only; F36/F37 recorded",
+            "Coq proof over regenerated call-site table + correspondence"),
 }
 
 
